@@ -1,6 +1,7 @@
 (* Proofs/AdmissionProofs.v — lemmas about Model/Admission.v (property C03). *)
 From Coq Require Import NArith ZArith List Bool Lia.
 From Verif Require Import Model.Types Model.Admission.
+From Verif Require Model.Retriever.
 Import ListNotations.
 
 (* ---- boolean equalities reflect equality where needed ----------------------------------------- *)
@@ -165,6 +166,56 @@ Proof.
   apply sync_header_frame.
 Qed.
 
+(* ---- the chunked read of a DA height (RetrieveWithHelpers) hands over every blob, in order ----------- *)
+Lemma chunks_from_nil : forall A fuel, @chunks_from A fuel [] = [].
+Proof. intros A [|f]; reflexivity. Qed.
+
+Lemma chunks_from_concat : forall A fuel (l : list A), (length l <= fuel)%nat -> concat (chunks_from fuel l) = l.
+Proof.
+  intros A fuel. induction fuel as [|f IH]; intros l Hl.
+  - destruct l; [reflexivity|cbn [length] in Hl; lia].
+  - destruct l as [|x r]; [reflexivity|].
+    cbn [chunks_from concat]. rewrite IH.
+    + apply firstn_skipn.
+    + rewrite skipn_length. cbn [length] in *. unfold batch_size. lia.
+Qed.
+
+Lemma fetched_all : forall A (l : list A), fetched l = l.
+Proof. intros A l. unfold fetched, chunks. apply chunks_from_concat. lia. Qed.
+
+(* the Get calls: call number k asks for the ids from 100k on, 100 of them or what is left, never none *)
+Lemma get_calls_from_nth : forall A fuel (l : list A) off k o n, (length l <= fuel)%nat ->
+  nth_error (get_calls_from off (chunks_from fuel l)) k = Some (o, n) ->
+  o = (off + N.of_nat (k * batch_size))%N /\
+  n = N.of_nat (Nat.min batch_size (length l - k * batch_size)) /\ (0 < n)%N.
+Proof.
+  intros A fuel. induction fuel as [|f IH]; intros l off k o n Hl Hn.
+  - cbn [chunks_from get_calls_from] in Hn. destruct k; discriminate.
+  - destruct l as [|x r]; [cbn [chunks_from get_calls_from] in Hn; destruct k; discriminate|].
+    cbn [chunks_from get_calls_from] in Hn.
+    pose proof (firstn_length batch_size (x :: r)) as Hf.
+    pose proof (skipn_length batch_size (x :: r)) as Hsk.
+    remember (length (firstn batch_size (x :: r))) as c eqn:Ec. clear Ec.
+    remember (skipn batch_size (x :: r)) as rest eqn:Er. clear Er.
+    cbn [length] in Hf, Hsk, Hl |- *.
+    destruct k as [|k'].
+    + cbn [nth_error] in Hn. assert (Ho : off = o) by congruence. assert (Hc : N.of_nat c = n) by congruence.
+      subst o n. clear Hn IH. unfold batch_size in *. repeat split; lia.
+    + cbn [nth_error] in Hn.
+      destruct rest as [|y r'].
+      * rewrite chunks_from_nil in Hn. cbn [get_calls_from] in Hn. destruct k'; discriminate.
+      * apply IH in Hn; [|unfold batch_size in *; lia].
+        destruct Hn as (Ho & Hn' & Hp). cbn [length] in *. unfold batch_size in *.
+        repeat split; [lia|lia|exact Hp].
+Qed.
+
+Lemma get_calls_nth : forall A (l : list A) k o n, nth_error (get_calls l) k = Some (o, n) ->
+  o = N.of_nat (k * batch_size) /\ n = N.of_nat (Nat.min batch_size (length l - k * batch_size)) /\ (0 < n)%N.
+Proof.
+  intros A l k o n H. unfold get_calls, chunks in H. apply get_calls_from_nth in H; [|lia].
+  destruct H as (Ho & Hn & Hp). rewrite N.add_0_l in Ho. repeat split; assumption.
+Qed.
+
 (* ---- the header store only ever holds headers naming the proposer ---------------------------------- *)
 Lemma hstore_accepts_names : forall now t st u,
   names_proposer pk (h_proposer (sh_hdr t)) = true -> hstore_accepts now (t :: st) u = true ->
@@ -175,28 +226,110 @@ Proof.
   rewrite (p2p_header_partial now t st u Ht En) in Ha. discriminate.
 Qed.
 
+Lemma node_final_cons : forall now tb s i r,
+  node_final g now tb s (i :: r) = node_final g now tb (fst (node_step g now tb s i)) r.
+Proof.
+  intros. unfold node_final. cbn [node_run].
+  destruct (node_step g now tb s i) as [s1 o]. cbn [fst].
+  destruct (node_run g now tb s1 r). reflexivity.
+Qed.
+
+Lemma node_final_nil : forall now tb s, node_final g now tb s [] = s.
+Proof. reflexivity. Qed.
+
+Lemma node_final_app : forall now tb a b s,
+  node_final g now tb s (a ++ b) = node_final g now tb (node_final g now tb s a) b.
+Proof.
+  intros now tb a. induction a as [|i r IH]; intros b s; [reflexivity|].
+  cbn [app]. rewrite !node_final_cons. apply IH.
+Qed.
+
+Lemma node_final_crashed : forall now tb l s, n_crashed s = true -> node_final g now tb s l = s.
+Proof.
+  intros now tb l. induction l as [|i r IH]; intros s Hc; [reflexivity|].
+  rewrite node_final_cons. unfold node_step. rewrite Hc. cbn [fst]. apply IH. exact Hc.
+Qed.
+
+(* ---- one blob of a DA height: what it cannot touch ------------------------------------------------- *)
+Lemma da_blob_step_frame : forall tb s b,
+  n_hstore (fst (da_blob_step g tb s b)) = n_hstore s /\ n_dstore (fst (da_blob_step g tb s b)) = n_dstore s /\
+  n_crashed (fst (da_blob_step g tb s b)) = false.
+Proof.
+  intros tb s b. unfold da_blob_step. cbn [fst]. rewrite da_admit_no_panic.
+  set (o := da_admit g (n_hseen s) (n_dseen s) b).
+  match goal with |- context [set_ingress s ?a ?b0 ?c ?d0 ?e] => set (s1 := set_ingress s a b0 c d0 e) end.
+  set (s2 := match o_hevent o with Some sh => sync_header tb s1 sh | None => s1 end).
+  assert (H2 : n_hstore s2 = n_hstore s /\ n_dstore s2 = n_dstore s /\ n_crashed s2 = false).
+  { unfold s2. destruct (o_hevent o) as [sh|]; [|repeat split].
+    destruct (sync_header_frame tb s1 sh) as (F1 & F2 & _ & _ & F5). rewrite F1, F2, F5. repeat split. }
+  destruct (o_devent o) as [d|]; [|exact H2].
+  destruct (sync_data_frame tb s2 d) as (F1 & F2 & _ & _ & F5). rewrite F1, F2, F5. exact H2.
+Qed.
+
+Lemma node_step_IDA : forall now tb s b, n_crashed s = false ->
+  node_step g now tb s (IDA b) = da_blob_step g tb s b.
+Proof. intros now tb s b Hc. unfold node_step. rewrite Hc. reflexivity. Qed.
+
+(* ---- a DA height is processed exactly as the sequence of its blobs ---------------------------------- *)
+Lemma da_blobs_run_cons : forall tb s b r, n_crashed s = false ->
+  da_blobs_run g tb s (b :: r) = da_blobs_run g tb (fst (da_blob_step g tb s b)) r.
+Proof. intros tb s b r Hc. cbn [da_blobs_run]. rewrite Hc. reflexivity. Qed.
+
+Lemma da_blobs_run_final : forall now tb bl s, n_crashed s = false ->
+  da_blobs_run g tb s bl = node_final g now tb s (map IDA bl).
+Proof.
+  intros now tb bl. induction bl as [|b r IH]; intros s Hc; [reflexivity|].
+  rewrite da_blobs_run_cons by exact Hc. cbn [map]. rewrite node_final_cons.
+  rewrite node_step_IDA by exact Hc. apply IH. apply da_blob_step_frame.
+Qed.
+
+(* reading a DA height through RetrieveWithHelpers' batches = reading its blobs one after the other:
+   no blob is lost, duplicated or reordered, however many the height holds *)
+Lemma node_step_height : forall now tb s bl,
+  fst (node_step g now tb s (IDAHeight bl)) = node_final g now tb s (map IDA bl).
+Proof.
+  intros now tb s bl. destruct (n_crashed s) eqn:Hc.
+  - rewrite node_final_crashed by exact Hc. unfold node_step. rewrite Hc. reflexivity.
+  - unfold node_step. rewrite Hc. rewrite fetched_all.
+    rewrite <- (da_blobs_run_final now tb bl s Hc). reflexivity.
+Qed.
+
+Lemma node_final_expand : forall now tb l s, node_final g now tb s l = node_final g now tb s (expand l).
+Proof.
+  intros now tb l. induction l as [|i r IH]; intros s; [reflexivity|].
+  destruct i; cbn [expand]; try (rewrite !node_final_cons; apply IH).
+  rewrite node_final_cons, node_step_height, node_final_app. apply IH.
+Qed.
+
+(* an invariant kept by every single blob is kept by a whole DA height *)
+Lemma blobs_ind : forall (P : nstate -> Prop) now tb,
+  (forall s b, P s -> P (fst (node_step g now tb s (IDA b)))) ->
+  forall bl s, P s -> P (node_final g now tb s (map IDA bl)).
+Proof.
+  intros P now tb Hstep bl. induction bl as [|b r IH]; intros s Hs; [exact Hs|].
+  cbn [map]. rewrite node_final_cons. apply IH. apply Hstep. exact Hs.
+Qed.
+
+Lemma node_step_inv_blob : forall now tb s b,
+  hstore_inv pk s -> hstore_inv pk (fst (node_step g now tb s (IDA b))).
+Proof.
+  intros now tb s b Hs. unfold node_step. destruct (n_crashed s); [exact Hs|].
+  unfold hstore_inv. destruct (da_blob_step_frame tb s b) as (F & _ & _). rewrite F. exact Hs.
+Qed.
+
 Lemma node_step_inv : forall now tb s i,
   init_ok pk i = true -> hstore_inv pk s -> hstore_inv pk (fst (node_step g now tb s i)).
 Proof.
-  intros now tb s i Hi Hs. unfold node_step.
-  destruct (n_crashed s); [exact Hs|].
-  destruct i as [sh|d|b|u|u linked].
+  intros now tb s i Hi Hs.
+  destruct i as [sh|d|b|bl|u|u linked]; try apply node_step_inv_blob; try assumption;
+    [| |rewrite node_step_height; apply blobs_ind; [intros; apply node_step_inv_blob|]; assumption| |];
+    unfold node_step; (destruct (n_crashed s); [exact Hs|]).
   - destruct (n_hstore s) eqn:E; [|cbn; exact Hs].
     cbn [fst]. unfold hstore_inv. rewrite forward_header_hstore. cbn. exact Hi.
   - destruct (n_dstore s) eqn:E; [|cbn; exact Hs].
     cbn [fst]. unfold hstore_inv.
     destruct (sync_data_frame tb (set_ingress s (n_hda s) (n_dda s) (n_hstore s) [d] false) d) as [F _].
     rewrite F. cbn. exact Hs.
-  - cbn [fst]. unfold hstore_inv.
-    set (o := da_admit g (n_hseen s) (n_dseen s) b).
-    match goal with |- context [set_ingress s ?a ?b0 ?c ?d0 ?e] => set (s1 := set_ingress s a b0 c d0 e) end.
-    assert (H1 : n_hstore s1 = n_hstore s) by reflexivity.
-    set (s2 := match o_hevent o with Some sh => sync_header tb s1 sh | None => s1 end).
-    assert (H2 : n_hstore s2 = n_hstore s).
-    { unfold s2. destruct (o_hevent o); [|exact H1]. destruct (sync_header_frame tb s1 s0) as [F _]. rewrite F. exact H1. }
-    assert (H3 : n_hstore (match o_devent o with Some d => sync_data tb s2 d | None => s2 end) = n_hstore s).
-    { destruct (o_devent o); [|exact H2]. destruct (sync_data_frame tb s2 d) as [F _]. rewrite F. exact H2. }
-    rewrite H3. exact Hs.
   - destruct (hstore_accepts now (n_hstore s) u) eqn:Ea; [|cbn; exact Hs].
     cbn [fst]. unfold hstore_inv. rewrite forward_header_hstore. cbn.
     unfold hstore_inv in Hs. destruct (n_hstore s) as [|t st]; [discriminate|].
@@ -223,44 +356,59 @@ Proof.
   destruct (m_height m0 =? m_height m + 1)%N; discriminate.
 Qed.
 
+(* a blob not signed by the proposer changes nothing at all *)
+Lemma da_blob_noop : forall tb s b, n_crashed s = false -> blob_adversarial pk b = true ->
+  fst (da_blob_step g tb s b) = s.
+Proof.
+  intros tb s b Ec Hh. unfold da_blob_step.
+  assert (Hn : exists hd, da_admit g (n_hseen s) (n_dseen s) b = da_nothing hd).
+  { destruct b as [| | |sh|sd]; cbn [da_admit]; try (eexists; reflexivity).
+    - cbn [blob_adversarial] in Hh. apply negb_true_iff in Hh.
+      destruct (validate_basic sh) eqn:Ev; cbn [negb]; [|eexists; reflexivity].
+      destruct (is_expected_sequencer g sh) eqn:Ee; cbn [negb]; [|eexists; reflexivity].
+      rewrite (expected_signed sh Ee) in Hh. discriminate.
+    - cbn [blob_adversarial] in Hh. apply negb_true_iff in Hh.
+      destruct (d_txs (sd_data sd)); [eexists; reflexivity|].
+      destruct (d_meta (sd_data sd)); [|eexists; reflexivity].
+      destruct (is_valid_signed_data g sd) eqn:Ev; cbn [negb]; [|eexists; reflexivity].
+      rewrite (valid_data_signed sd Ev) in Hh. discriminate. }
+  destruct Hn as [hd Hn]. rewrite Hn. cbn [da_nothing o_hmark o_dmark o_hevent o_devent o_panic fst].
+  apply set_ingress_id. exact Ec.
+Qed.
+
+Lemma da_blobs_noop : forall now tb bl s, forallb (blob_adversarial pk) bl = true ->
+  node_final g now tb s (map IDA bl) = s.
+Proof.
+  intros now tb bl. induction bl as [|b r IH]; intros s Ha; [reflexivity|].
+  cbn [forallb] in Ha. apply andb_true_iff in Ha as [Hb Ha].
+  cbn [map]. rewrite node_final_cons.
+  destruct (n_crashed s) eqn:Ec.
+  - unfold node_step. rewrite Ec. cbn [fst]. apply IH. exact Ha.
+  - rewrite node_step_IDA by exact Ec. rewrite da_blob_noop by assumption. apply IH. exact Ha.
+Qed.
+
 Lemma harmless_noop : forall now tb s i,
   hstore_inv pk s -> harmless pk i = true -> fst (node_step g now tb s i) = s.
 Proof.
-  intros now tb s i Hs Hh. unfold node_step.
-  destruct (n_crashed s) eqn:Ec; [reflexivity|].
-  destruct i as [sh|d|b|u|u linked]; try discriminate.
+  intros now tb s i Hs Hh.
+  destruct i as [sh|d|b|bl|u|u linked]; try discriminate.
   - (* DA blob *)
-    assert (Hn : exists hd, da_admit g (n_hseen s) (n_dseen s) b = da_nothing hd).
-    { destruct b as [| | |sh|sd]; cbn [da_admit]; try (eexists; reflexivity).
-      - cbn [harmless adversarial] in Hh. apply negb_true_iff in Hh.
-        destruct (validate_basic sh) eqn:Ev; cbn [negb]; [|eexists; reflexivity].
-        destruct (is_expected_sequencer g sh) eqn:Ee; cbn [negb]; [|eexists; reflexivity].
-        rewrite (expected_signed sh Ee) in Hh. discriminate.
-      - cbn [harmless adversarial] in Hh. apply negb_true_iff in Hh.
-        destruct (d_txs (sd_data sd)); [eexists; reflexivity|].
-        destruct (d_meta (sd_data sd)); [|eexists; reflexivity].
-        destruct (is_valid_signed_data g sd) eqn:Ev; cbn [negb]; [|eexists; reflexivity].
-        rewrite (valid_data_signed sd Ev) in Hh. discriminate. }
-    destruct Hn as [hd Hn]. rewrite Hn. cbn [da_nothing o_hmark o_dmark o_hevent o_devent o_panic fst].
-    apply set_ingress_id. exact Ec.
+    destruct (n_crashed s) eqn:Ec; [unfold node_step; rewrite Ec; reflexivity|].
+    rewrite node_step_IDA by exact Ec. apply da_blob_noop; assumption.
+  - (* a DA height of third-party blobs *)
+    rewrite node_step_height. apply da_blobs_noop. exact Hh.
   - (* header gossip *)
+    unfold node_step. destruct (n_crashed s) eqn:Ec; [reflexivity|].
     cbn [harmless] in Hh. apply negb_true_iff in Hh.
     unfold hstore_inv in Hs. destruct (n_hstore s) as [|t st] eqn:E.
     + cbn. reflexivity.
     + rewrite (p2p_header_partial now t st u Hs Hh). reflexivity.
   - (* data gossip *)
+    unfold node_step. destruct (n_crashed s) eqn:Ec; [reflexivity|].
     cbn [harmless] in Hh. apply negb_true_iff in Hh. subst linked.
     unfold dstore_accepts. destruct (n_dstore s) as [|t st]; [reflexivity|].
     pose proof (p2p_verify_data_unlinked now t u) as Hv.
     destruct (p2p_verify_data now t u false); try reflexivity. contradiction.
-Qed.
-
-Lemma node_final_cons : forall now tb s i r,
-  node_final g now tb s (i :: r) = node_final g now tb (fst (node_step g now tb s i)) r.
-Proof.
-  intros. unfold node_final. cbn [node_run].
-  destruct (node_step g now tb s i) as [s1 o]. cbn [fst].
-  destruct (node_run g now tb s1 r). reflexivity.
 Qed.
 
 Lemma no_halt_partial : forall now tb gs adv m,
@@ -366,24 +514,30 @@ Proof.
     destruct (is_valid_signed_data g sd); cbn [negb da_nothing o_hevent]; discriminate.
 Qed.
 
+Lemma node_step_sync_inv_blob : forall now tb s b, sync_inv s -> sync_inv (fst (node_step g now tb s (IDA b))).
+Proof.
+  intros now tb s b Hs. unfold node_step.
+  destruct (n_crashed s); [exact Hs|]. unfold da_blob_step. cbn [fst].
+  set (o := da_admit g (n_hseen s) (n_dseen s) b).
+  match goal with |- context [set_ingress s ?a ?b0 ?c ?d0 ?e] => set (s1 := set_ingress s a b0 c d0 e) end.
+  assert (H1 : sync_inv s1) by (apply set_ingress_inv; exact Hs).
+  assert (H2 : sync_inv (match o_hevent o with Some sh => sync_header tb s1 sh | None => s1 end)).
+  { destruct (o_hevent o) as [sh|] eqn:Eo; [|exact H1].
+    destruct (da_admit_hevent _ _ _ _ Eo) as [Hb He]. subst b.
+    apply sync_header_inv; [|exact H1]. apply expected_signed; assumption. }
+  destruct (o_devent o); [|exact H2]. apply sync_data_inv. exact H2.
+Qed.
+
 Lemma node_step_sync_inv : forall now tb s i, sync_inv s -> sync_inv (fst (node_step g now tb s i)).
 Proof.
-  intros now tb s i Hs. unfold node_step.
-  destruct (n_crashed s); [exact Hs|].
-  destruct i as [sh|d|b|u|u linked].
+  intros now tb s i Hs.
+  destruct i as [sh|d|b|bl|u|u linked]; try (apply node_step_sync_inv_blob; assumption);
+    [| |rewrite node_step_height; apply blobs_ind; [intros; apply node_step_sync_inv_blob|]; assumption| |];
+    unfold node_step; (destruct (n_crashed s); [exact Hs|]).
   - destruct (n_hstore s); [|exact Hs]. cbn [fst].
     apply forward_header_inv. apply set_ingress_inv. exact Hs.
   - destruct (n_dstore s); [|exact Hs]. cbn [fst].
     apply sync_data_inv. apply set_ingress_inv. exact Hs.
-  - cbn [fst].
-    set (o := da_admit g (n_hseen s) (n_dseen s) b).
-    match goal with |- context [set_ingress s ?a ?b0 ?c ?d0 ?e] => set (s1 := set_ingress s a b0 c d0 e) end.
-    assert (H1 : sync_inv s1) by (apply set_ingress_inv; exact Hs).
-    assert (H2 : sync_inv (match o_hevent o with Some sh => sync_header tb s1 sh | None => s1 end)).
-    { destruct (o_hevent o) as [sh|] eqn:Eo; [|exact H1].
-      destruct (da_admit_hevent _ _ _ _ Eo) as [Hb He]. subst b.
-      apply sync_header_inv; [|exact H1]. apply expected_signed; assumption. }
-    destruct (o_devent o); [|exact H2]. apply sync_data_inv. exact H2.
   - destruct (hstore_accepts now (n_hstore s) u); [|exact Hs]. cbn [fst].
     apply forward_header_inv. apply set_ingress_inv. exact Hs.
   - destruct (dstore_accepts now (n_dstore s) u linked); [|exact Hs]. cbn [fst].
@@ -398,10 +552,16 @@ Proof.
 Qed.
 
 (* no traffic whatsoever makes a goroutine of the node panic *)
+Lemma node_step_no_crash_blob : forall now tb s b,
+  n_crashed s = false -> n_crashed (fst (node_step g now tb s (IDA b))) = false.
+Proof. intros now tb s b Hc. rewrite node_step_IDA by exact Hc. apply da_blob_step_frame. Qed.
+
 Lemma node_step_no_crash : forall now tb s i, n_crashed s = false -> n_crashed (fst (node_step g now tb s i)) = false.
 Proof.
-  intros now tb s i Hc. unfold node_step. rewrite Hc.
-  destruct i as [sh|d|b|u|u linked].
+  intros now tb s i Hc.
+  destruct i as [sh|d|b|bl|u|u linked]; try (apply node_step_no_crash_blob; assumption);
+    [| |rewrite node_step_height; apply (blobs_ind (fun s => n_crashed s = false)); [intros; apply node_step_no_crash_blob|]; assumption| |];
+    unfold node_step; rewrite Hc.
   - destruct (n_hstore s); [|exact Hc]. cbn [fst]. unfold forward_header.
     destruct (is_expected_sequencer g sh); [|reflexivity].
     match goal with |- n_crashed (sync_header tb ?x sh) = _ => destruct (sync_header_frame tb x sh) as (_ & _ & _ & _ & F); rewrite F end.
@@ -409,14 +569,6 @@ Proof.
   - destruct (n_dstore s); [|exact Hc]. cbn [fst].
     match goal with |- n_crashed (sync_data tb ?x d) = _ => destruct (sync_data_frame tb x d) as (_ & _ & _ & _ & F); rewrite F end.
     reflexivity.
-  - cbn [fst]. rewrite da_admit_no_panic.
-    set (o := da_admit g (n_hseen s) (n_dseen s) b).
-    match goal with |- context [set_ingress s ?a ?b0 ?c ?d0 ?e] => set (s1 := set_ingress s a b0 c d0 e) end.
-    assert (H1 : n_crashed s1 = false) by reflexivity.
-    set (s2 := match o_hevent o with Some sh => sync_header tb s1 sh | None => s1 end).
-    assert (H2 : n_crashed s2 = false).
-    { unfold s2. destruct (o_hevent o); [|exact H1]. destruct (sync_header_frame tb s1 s0) as (_ & _ & _ & _ & F). rewrite F. exact H1. }
-    destruct (o_devent o); [|exact H2]. destruct (sync_data_frame tb s2 d) as (_ & _ & _ & _ & F). rewrite F. exact H2.
   - destruct (hstore_accepts now (n_hstore s) u); [|exact Hc]. cbn [fst]. unfold forward_header.
     destruct (is_expected_sequencer g u); [|reflexivity].
     match goal with |- n_crashed (sync_header tb ?x u) = _ => destruct (sync_header_frame tb x u) as (_ & _ & _ & _ & F); rewrite F end.
@@ -434,7 +586,7 @@ Qed.
 
 (* third-party material on the DA layer (any blobs not signed by the proposer), interleaved anywhere: no effect *)
 Lemma da_adversarial_harmless : forall i, da_adversarial pk i = true -> harmless pk i = true.
-Proof. intros [sh|d|b|u|u l] H; cbn in *; try discriminate. exact H. Qed.
+Proof. intros [sh|d|b|bl|u|u l] H; cbn [da_adversarial harmless] in *; try discriminate; exact H. Qed.
 
 Lemma no_halt_da_full : forall now tb gs adv m,
   interleave gs adv m ->
@@ -446,11 +598,98 @@ Proof.
   rewrite forallb_forall in *. intros x Hx. apply da_adversarial_harmless. apply Ha. exact Hx.
 Qed.
 
+(* ---- DA heights holding ANY number of third-party blobs ---------------------------------------------- *)
+Lemma interleave_map : forall A B (f : A -> B) gs adv m, interleave gs adv m -> interleave (map f gs) (map f adv) (map f m).
+Proof. intros A B f gs adv m H. induction H; cbn [map]; constructor; assumption. Qed.
+
+Lemma init_ok_expand : forall l, forallb (init_ok pk) l = true -> forallb (init_ok pk) (expand l) = true.
+Proof.
+  induction l as [|i r IH]; intros H; [reflexivity|].
+  cbn [forallb] in H. apply andb_true_iff in H as [Hi Hr].
+  destruct i; cbn [expand forallb]; try (rewrite Hi, (IH Hr); reflexivity).
+  rewrite forallb_app, (IH Hr), andb_true_r. rewrite forallb_forall. intros x Hx.
+  apply in_map_iff in Hx as (b & <- & _). reflexivity.
+Qed.
+
+Lemma da_adversarial_expand : forall l, forallb (da_adversarial pk) l = true -> forallb (da_adversarial pk) (expand l) = true.
+Proof.
+  induction l as [|i r IH]; intros H; [reflexivity|].
+  cbn [forallb] in H. apply andb_true_iff in H as [Hi Hr].
+  destruct i; cbn [expand forallb]; try (rewrite Hi, (IH Hr); reflexivity).
+  rewrite forallb_app, (IH Hr), andb_true_r. cbn [da_adversarial adversarial] in Hi.
+  rewrite forallb_forall in *. intros x Hx.
+  apply in_map_iff in Hx as (b & <- & Hb). cbn [da_adversarial adversarial]. apply Hi. exact Hb.
+Qed.
+
+(* genuine traffic gs and third-party DA material adv, both given per DA height or per blob, merged in any
+   way that keeps the order of each — in particular third-party blobs put INSIDE the DA heights that carry the
+   proposer's blobs, in any number and at any positions: the node ends in the state of the genuine run *)
+Lemma no_halt_da_heights_full : forall now tb gs adv m,
+  interleave (expand gs) (expand adv) (expand m) ->
+  forallb (init_ok pk) gs = true -> forallb (da_adversarial pk) adv = true ->
+  forall s, hstore_inv pk s ->
+  node_final g now tb s m = node_final g now tb s gs.
+Proof.
+  intros now tb gs adv m Hil Hgs Ha s Hs.
+  rewrite (node_final_expand now tb m), (node_final_expand now tb gs).
+  eapply no_halt_da_full; try eassumption.
+  - apply init_ok_expand. exact Hgs.
+  - apply da_adversarial_expand. exact Ha.
+Qed.
+
+(* one DA height: the proposer's blobs gb with any third-party blobs ab anywhere between them *)
+Lemma crowded_height_full : forall now tb gb ab mb,
+  interleave gb ab mb -> forallb (blob_adversarial pk) ab = true ->
+  forall s, hstore_inv pk s ->
+  fst (node_step g now tb s (IDAHeight mb)) = fst (node_step g now tb s (IDAHeight gb)).
+Proof.
+  intros now tb gb ab mb Hil Ha s Hs. rewrite !node_step_height.
+  apply (no_halt_da_full now tb (map IDA gb) (map IDA ab) (map IDA mb)).
+  - apply interleave_map. exact Hil.
+  - rewrite forallb_forall. intros x Hx. apply in_map_iff in Hx as (b & <- & _). reflexivity.
+  - rewrite forallb_forall in *. intros x Hx. apply in_map_iff in Hx as (b & <- & Hb).
+    cbn [da_adversarial adversarial]. apply Ha. exact Hb.
+  - exact Hs.
+Qed.
+
 Lemma node_init_sync_inv : forall app0 t0, sync_inv (node_init g app0 t0).
 Proof. intros. split; constructor. Qed.
 
 (* DA-included marks: a header mark is only ever set for a header that passed the sequencer test *)
 End WithProposer.
+
+(* ---- the same batches as property C09's model of RetrieveWithHelpers (Model/Retriever.v, C09_chunks_full) --- *)
+Lemma get_calls_from_as_C09 : forall A fuel (l : list A) (l' : list Retriever.blob) off, length l = length l' ->
+  get_calls_from (N.of_nat off) (chunks_from fuel l) =
+  map (fun oc => (N.of_nat (fst oc), N.of_nat (length (snd oc)))) (Retriever.chunks_from fuel off l').
+Proof.
+  intros A fuel. induction fuel as [|f IH]; intros l l' off Hl; [reflexivity|].
+  destruct l as [|x r]; destruct l' as [|x' r']; try discriminate; [reflexivity|].
+  cbn [chunks_from Retriever.chunks_from get_calls_from map fst snd].
+  pose proof (firstn_length batch_size (x :: r)) as Hf.
+  pose proof (firstn_length Retriever.batch_size (x' :: r')) as Hf'.
+  pose proof (skipn_length batch_size (x :: r)) as Hs.
+  pose proof (skipn_length Retriever.batch_size (x' :: r')) as Hs'.
+  remember (firstn batch_size (x :: r)) as c eqn:Ec. clear Ec.
+  remember (firstn Retriever.batch_size (x' :: r')) as c' eqn:Ec'. clear Ec'.
+  remember (skipn batch_size (x :: r)) as t eqn:Et. clear Et.
+  remember (skipn Retriever.batch_size (x' :: r')) as t' eqn:Et'. clear Et'.
+  assert (Hc : length c = length c') by (unfold batch_size, Retriever.batch_size in *; lia).
+  assert (Ht : length t = length t') by (unfold batch_size, Retriever.batch_size in *; lia).
+  rewrite Hc. f_equal.
+  destruct t as [|y t0]; destruct t' as [|y' t0']; try discriminate.
+  - rewrite chunks_from_nil. destruct f; reflexivity.
+  - replace (N.of_nat off + N.of_nat (length c'))%N with (N.of_nat (off + Retriever.batch_size)).
+    + apply IH. exact Ht.
+    + cbn [length] in *. unfold batch_size, Retriever.batch_size in *. lia.
+Qed.
+
+Lemma get_calls_as_C09 : forall A (l : list A) (l' : list Retriever.blob), length l = length l' ->
+  get_calls l = map (fun oc => (N.of_nat (fst oc), N.of_nat (length (snd oc)))) (Retriever.chunks l').
+Proof.
+  intros A l l' H. unfold get_calls, chunks, Retriever.chunks. rewrite <- H.
+  apply (get_calls_from_as_C09 A (length l) l l' 0 H).
+Qed.
 
 (* ================= witnesses: the full statements are false of the faithful model ================= *)
 Module W.
